@@ -20,6 +20,7 @@ from __future__ import annotations
 import hashlib
 import random
 import sys
+import re
 import threading
 from collections.abc import Mapping
 
@@ -341,7 +342,7 @@ class Sim:
         # canonical task order: by key text (names are content tokens or seeded uuids), never
         # by dict position - Dask assembles graphs through sets, whose iteration order
         # depends on PYTHONHASHSEED
-        order = {k: i for i, k in enumerate(sorted(dsk, key=_key_text))}
+        order = {k: i for i, k in enumerate(_canonical_order(dsk))}
         if isinstance(keys, list):
             wanted = set(flatten(keys))
         else:
@@ -446,6 +447,44 @@ def _lock_holder_on_stack(frame, limit=120):
         f = f.f_back
         n += 1
     return False
+
+
+_TOKEN = re.compile(r"[0-9a-f]{32}")
+
+
+def _canonical_order(dsk):
+    """Keys of a task graph in an order that depends on the graph's STRUCTURE and on the
+    content-derived parts of the names only.  Most Dask names end in a token of their
+    content, but dask-expr names *fused* layers by a token that varies with PYTHONHASHSEED
+    (found by the self-test): names are therefore compared with their 32-hex tokens blanked
+    first, then by the same signature of their dependencies (recursively), and only last
+    by their full text."""
+    import hashlib
+    sig = {}
+
+    def shape(k):
+        name, idx = _key_text(k)
+        return (_TOKEN.sub("#", name), idx)
+
+    def struct(k):
+        # iterative post-order: graphs can be deeper than the recursion limit
+        stack = [k]
+        while stack:
+            cur = stack[-1]
+            if cur in sig:
+                stack.pop()
+                continue
+            node = dsk.get(cur)
+            deps = [d for d in getattr(node, "dependencies", ()) if d in dsk]
+            todo = [d for d in deps if d not in sig]
+            if todo:
+                stack.extend(todo)
+                continue
+            inner = sorted((shape(d), sig[d]) for d in deps)
+            sig[cur] = hashlib.sha1(repr(inner).encode()).hexdigest()[:16]
+            stack.pop()
+        return sig[k]
+    return sorted(dsk, key=lambda k: (shape(k), struct(k), _key_text(k)))
 
 
 def _key_text(k):
